@@ -74,9 +74,29 @@ impl<const N: usize> error::TexError for OutOfBoundsError<N> {
 
 impl Parsable for char {
     fn parse_impl<S: TexlangState>(input: &mut vm::ExpandedStream<S>) -> txl::Result<Self> {
-        let u1 = Uint::<{ char::MAX as usize }>::parse(input)?;
-        let u2: u32 = u1.0.try_into().unwrap();
-        Ok(char::from_u32(u2).unwrap())
+        let (first_token, i, _) = parse_integer(input)?;
+        if i < 0 || i as usize >= char::MAX as usize {
+            input.error(OutOfBoundsError::<{ char::MAX as usize }> {
+                first_token,
+                got: i,
+            })?;
+            return Ok('\0');
+        }
+        match char::from_u32(i as u32) {
+            Some(c) => Ok(c),
+            None => {
+                input.error(parse::Error {
+                    expected: "a character code".into(),
+                    got: Some(first_token),
+                    got_override: format!["got the integer {i}"],
+                    annotation_override: "this is where the number started".into(),
+                    guidance: "integers in the range [55296, 57343] are surrogates and not characters"
+                        .into(),
+                    additional_notes: vec![],
+                })?;
+                Ok('\0')
+            }
+        }
     }
 }
 
